@@ -11,7 +11,6 @@ import (
 	"strings"
 
 	"github.com/els0r/goProbe/v4/pkg/goDB/encoder"
-	"github.com/els0r/goProbe/v4/pkg/goDB/encoder/encoders"
 	"github.com/els0r/goProbe/v4/pkg/goDB/storage/gpfile"
 	"github.com/els0r/goProbe/v4/pkg/types"
 )
@@ -20,17 +19,6 @@ import (
 // then the raw column files and a fresh reader's view are reported.
 
 const c01Day = int64(1699920000) // 2023-11-14 00:00:00 UTC
-
-func encType(name string) encoders.Type {
-	switch name {
-	case "null":
-		return encoders.EncoderTypeNull
-	case "lz4":
-		return encoders.EncoderTypeLZ4
-	default:
-		return encoders.EncoderTypeZSTD
-	}
-}
 
 func compressWith(name string, level int, data []byte) []byte {
 	if name == "null" || len(data) == 0 {
